@@ -127,6 +127,14 @@ func poolConfigs(prop string, thorough bool) (cfgs []poolCfg, depth int) {
 				}
 			}
 		}
+		// non-initial root: one channel carries a very large number of bound keys (the per-channel key
+		// counter must never weigh in the least-loaded decision)
+		for _, nk := range []int{70000, 1 << 24, 1<<31 - 1} {
+			c := poolCfg{Name: fmt.Sprintf("C02 pool=2 root=many-keys(%d)", nk), Min: 2, Max: 2, WM: 100, Depth: 4,
+				Setup: append(readyPool(2), fmt.Sprintf("keys(0,%d)", nk))}
+			c.A = alphabet{Cmds: []string{"plain", "bound"}, Keys: []string{"k1"}, Gens: []string{"L"}, Ctx: []string{"g"}, Done: []string{"ok"}, MaxOpen: 3, MaxSC: 3}
+			add(c)
+		}
 	case "C03":
 		depth = 6
 		if thorough {
@@ -139,6 +147,12 @@ func poolConfigs(prop string, thorough bool) (cfgs []poolCfg, depth int) {
 				Ctx: []string{"g,d1"}, Done: []string{"ok", "cde"}, Adv: []int{2}, MaxOpen: 3, MaxSC: 5}
 			add(c)
 		}
+		// non-initial root: a refresh in flight (replacement connecting) and an open call on the old
+		// connection: responses and further deadline calls arrive before the swap
+		rr := poolCfg{Name: "C03 min=1 max=2 wm=100 root=refreshing", Min: 1, Max: 2, WM: 100, RefCalls: 1, RefMs: 1, Depth: 5,
+			Setup: append(readyPool(1), "pick(plain,,L,g,d1)", "pick(plain,,L,g,d1)", "adv(2)", "done(0,cde)", "state(1,CONNECTING)")}
+		rr.A = alphabet{States: "basic", Cmds: []string{"plain"}, Gens: []string{"L"}, Ctx: []string{"g,d1"}, Done: []string{"ok", "cde"}, Adv: []int{2}, MaxOpen: 3, MaxSC: 5}
+		add(rr)
 	case "C04":
 		depth = 6
 		if thorough {
@@ -233,7 +247,7 @@ func poolConfigs(prop string, thorough bool) (cfgs []poolCfg, depth int) {
 				}
 				c := poolCfg{Name: fmt.Sprintf("C07 calls=%d ms=%d pool=%d", m[0], m[1], n), Min: n, Max: n, WM: 100, RefCalls: m[0], RefMs: m[1], Setup: readyPool(int(n))}
 				c.A = alphabet{States: "basic", Cmds: []string{"plain"}, Gens: []string{"L"}, Ctx: []string{"g,d1", "g"},
-					Done: []string{"ok", "err", "cde", "sde"}, Adv: []int{1, 2}, Fail: true, MaxOpen: 3, MaxSC: int(n) + 2}
+					Done: []string{"ok", "err", "cde", "cdeb", "sde"}, Adv: []int{1, 2}, Fail: true, MaxOpen: 3, MaxSC: int(n) + 2}
 				add(c)
 				if m[0] == 1 && m[1] >= 1 {
 					// non-initial root: a refresh of channel 0 in flight, replacement connecting
@@ -405,7 +419,7 @@ func checkPool(c *vsched.RunCtx, prop string) {
 	if c.Replay != nil {
 		if strings.HasPrefix(c.Replay.Harness, "sched:") {
 			runPoolDrivers(c, drivers, false)
-		} else if c.Replay.Harness == "pairs" {
+		} else if strings.HasPrefix(c.Replay.Harness, "pairs") {
 			runPairs(c, false)
 		} else {
 			replayPool(c, prop, cfgs)
@@ -437,7 +451,7 @@ func checkPool(c *vsched.RunCtx, prop string) {
 	if c.Thorough() {
 		autoRoots(c, prop, cfgs, depth)
 	}
-	c.Assume("fake balancer.ClientConn modelled on grpc v1.56.3 ccBalancerWrapper: NewSubConn rejects empty address lists, RemoveSubConn is followed by a SHUTDOWN report at an explorer-chosen moment, Done(DoneInfo{}) for a picked-but-not-ready connection",
+	c.Assume("fake balancer.ClientConn modelled on grpc v1.56.3 ccBalancerWrapper: NewSubConn rejects empty address lists, RemoveSubConn is followed by a SHUTDOWN report at an explorer-chosen moment, Done(DoneInfo{}) for a picked-but-not-ready connection; after Close gRPC delivers no balancer callback and refuses NewSubConn, picks on published pickers and completions still arrive (C05/C06 alphabets)",
 		"virtual clock; operations are atomic in history mode (sub-operation interleavings are explored by the schedule harnesses)",
 		"small scope: <=3 channels, 2 keys, <=3 open calls, 2 address lists")
 }
